@@ -1,13 +1,14 @@
 // C14 (bounded): the k-th command of an n-command pipeline cannot be started.  For n = 2..4, every failing position k, pipeline stdin
 // inherited / piped / fed with data, and every way of running a pipeline (popen, join, capture, communicate, stream_stdout, stream_stdin):
 // the call must return that error promptly, and afterwards the parent has no child left (running or zombie) and no extra descriptor.
-// The started commands are `cat`s, i.e. they exit only when their stdin reaches end-of-file.
+// The started commands are `cat`s, i.e. they exit only when their stdin reaches end-of-file; for capture/communicate also `cat`s that
+// first write 300000 bytes to their standard error (more than a pipe holds: they exit only if somebody reads or closes that pipe).
 use std::time::{Duration, Instant};
 use subprocess::{Exec, Pipeline, Redirection};
 
 fn open_fds() -> usize { std::fs::read_dir("/proc/self/fd").unwrap().count() }
-fn build(n: usize, k: usize, stdin_kind: usize) -> Pipeline {
-    let cmds: Vec<Exec> = (0..n).map(|i| if i == k { Exec::cmd("/nonexistent/program") } else { Exec::cmd("cat") }).collect();
+fn build(n: usize, k: usize, stdin_kind: usize, flood: bool) -> Pipeline {
+    let cmds: Vec<Exec> = (0..n).map(|i| if i == k { Exec::cmd("/nonexistent/program") } else if flood { Exec::cmd("sh").arg("-c").arg("head -c 300000 /dev/zero >&2; exec cat") } else { Exec::cmd("cat") }).collect();
     let p = Pipeline::from_exec_iter(cmds);
     match stdin_kind { 0 => p.stdin(subprocess::NullFile), 1 => p.stdin(Redirection::Pipe), _ => p.stdin("some input data\n") }
 }
@@ -29,15 +30,17 @@ fn main() {
     for n in 2..=4 {
         for k in 0..n {
             for stdin_kind in 0..3 {
-                for term in 0..6 {
+                for term in 0..6 { for flood in [false, true] {
+                    // a command that floods its stderr: only where the library itself captures stderr, and only if some command is started
+                    if flood && !((term == 2 || term == 3) && k > 0) { continue; }
                     // input data is only accepted by capture/communicate; a piped stdin without data is not accepted by them
                     if stdin_kind == 2 && !(term == 2 || term == 3) { continue; }
                     if stdin_kind == 1 && (term == 2 || term == 3) { continue; }
                     if term == 5 && stdin_kind != 0 { continue; }
-                    let what = format!("n={} k={} stdin={} via {}", n, k, ["null", "pipe", "data"][stdin_kind], ["popen", "join", "capture", "communicate", "stream_stdout", "stream_stdin"][term]);
+                    let what = format!("n={} k={} stdin={} via {}{}", n, k, ["null", "pipe", "data"][stdin_kind], ["popen", "join", "capture", "communicate", "stream_stdout", "stream_stdin"][term], if flood { " (started commands first write 300000 bytes to stderr)" } else { "" });
                     *progress.lock().unwrap() = what.clone();
                     let t = Instant::now();
-                    let p = build(n, k, stdin_kind);
+                    let p = build(n, k, stdin_kind, flood);
                     let failed = match term {
                         0 => p.popen().is_err(),
                         1 => p.join().is_err(),
@@ -62,7 +65,7 @@ fn main() {
                     if left != 0 { why.push("a child of the attempt is still there (running or zombie)".to_string()); }
                     if open_fds() != fds0 { why.push(format!("{} descriptors open instead of {}", open_fds(), fds0)); }
                     if !why.is_empty() { if bad < 5 { println!("FAIL: {}: {}", what, why.join("; ")); } bad += 1; }
-                }
+                } }
             }
         }
     }
